@@ -60,7 +60,7 @@ ssize_t io::queue::write(size_t len, const void *d, size_t part)
 			return done;
 		}
 		++done;
-		d = ((char *) d) + part;
+		if (d) d = ((char *) d) + part;
 	}
 	return len;
 }
@@ -72,7 +72,7 @@ ssize_t io::queue::read(size_t len, void *d, size_t part)
 			return done;
 		}
 		++done;
-		d = ((char *) d) + part;
+		if (d) d = ((char *) d) + part;
 	}
 	return len;
 }
